@@ -233,5 +233,159 @@ def translate(repo):
         name = f"gen_{cls}_{obj}" if src == USC else f"gen_{cls}"
         out.append(stop_method(mod, src, cls, params, obj, name))
         fns.append(f"{src}:{cls}.__call__[{obj}]")
-    # FitnessEvalLimitReached._transform_weights: strategy -> list of weights
+    out.append(transform_weights(gmod))
+    fns += [f"{GSC}:FitnessEvalLimitReached._transform_weights", f"{GSC}:FitnessEvalLimitReached.__call__[weights guard]"]
     return {"GenStops.v": "\n".join(out)}, fns
+
+
+# ---------------------------------------------------------------- FitnessEvalLimitReached: what `self.weights` is when the sum is taken
+STRATEGIES = {"WeightingStrategy.ROOT": "w_eq_root", "WeightingStrategy.EQUAL": "w_eq_equal"}
+STRATEGY_STRINGS = {"root": "w_eq_root", "equal": "w_eq_equal"}
+
+
+def _bad(node, why):
+    raise Unsupported(f"{GSC}:{getattr(node, 'lineno', '?')}: FitnessEvalLimitReached weights: {why}: {ast.unparse(node)[:80]}")
+
+
+def _is_w(e):
+    return dotted(e) == "self.weights"
+
+
+def wtest(e):
+    """a test on `self.weights` -> a boolean function of w : wspec"""
+    if isinstance(e, ast.BoolOp):
+        op = "orb" if isinstance(e.op, ast.Or) else "andb"
+        code = wtest(e.values[0])
+        for v in e.values[1:]:
+            code = f"({op} {code} {wtest(v)})"
+        return code
+    if isinstance(e, ast.UnaryOp) and isinstance(e.op, ast.Not):
+        return f"(negb {wtest(e.operand)})"
+    if isinstance(e, ast.Call) and dotted(e.func) == "isinstance" and len(e.args) == 2 and not e.keywords and _is_w(e.args[0]):
+        t = dotted(e.args[1])
+        if t == "str":
+            return "(w_is_str w)"
+        if t == "list":
+            return "(w_is_list w)"
+        _bad(e, "isinstance against this type is not modelled")
+    if isinstance(e, ast.Compare) and len(e.ops) == 1:
+        a, op, b = e.left, e.ops[0], e.comparators[0]
+        if not _is_w(a) and _is_w(b) and isinstance(op, (ast.Eq, ast.NotEq)):
+            a, b = b, a
+        if _is_w(a):
+            def one(x):
+                if isinstance(x, ast.Constant) and x.value is None:
+                    return "(w_is_none w)"
+                if dotted(x) in STRATEGIES:
+                    return f"({STRATEGIES[dotted(x)]} w)"
+                if isinstance(x, ast.Constant) and x.value in STRATEGY_STRINGS:
+                    return f"({STRATEGY_STRINGS[x.value]} w)"
+                _bad(e, "comparison with this value is not modelled")
+            if isinstance(op, (ast.Is, ast.IsNot)):
+                if not (isinstance(b, ast.Constant) and b.value is None):
+                    _bad(e, "identity test against something other than None")
+                return one(b) if isinstance(op, ast.Is) else f"(negb {one(b)})"
+            if isinstance(op, (ast.Eq, ast.NotEq)):
+                return one(b) if isinstance(op, ast.Eq) else f"(negb {one(b)})"
+            if isinstance(op, (ast.In, ast.NotIn)) and isinstance(b, (ast.Tuple, ast.List, ast.Set)) and b.elts:
+                code = one(b.elts[0])
+                for x in b.elts[1:]:
+                    code = f"(orb {code} {one(x)})"
+                return code if isinstance(op, ast.In) else f"(negb {code})"
+    _bad(e, "test not understood")
+
+
+def wnat(e, n_name):
+    if isinstance(e, ast.Constant) and isinstance(e.value, int) and not isinstance(e.value, bool) and 0 <= e.value < 1000:
+        return str(e.value)
+    if isinstance(e, ast.Name) and e.id == n_name:
+        return "v_n"
+    if isinstance(e, ast.BinOp) and isinstance(e.op, (ast.Add, ast.Sub, ast.Mult)):
+        return f"({wnat(e.left, n_name)} {'+' if isinstance(e.op, ast.Add) else '-' if isinstance(e.op, ast.Sub) else '*'} {wnat(e.right, n_name)})"
+    _bad(e, "number not understood")
+
+
+def wlist(e, n_name):
+    """a list of weights built from the number of levels"""
+    if isinstance(e, ast.ListComp) and len(e.generators) == 1 and not e.generators[0].ifs and isinstance(e.generators[0].target, ast.Name) \
+            and isinstance(e.generators[0].iter, ast.Call) and dotted(e.generators[0].iter.func) == "range" and len(e.generators[0].iter.args) == 1 \
+            and not any(isinstance(n, ast.Name) and n.id == e.generators[0].target.id for n in ast.walk(e.elt)):
+        return f"(map (fun _ => {wnat(e.elt, n_name)}) (seq 0 {wnat(e.generators[0].iter.args[0], n_name)}))"
+    if isinstance(e, ast.BinOp) and isinstance(e.op, ast.Mult):
+        l, r = (e.left, e.right) if isinstance(e.left, ast.List) else (e.right, e.left)
+        if isinstance(l, ast.List) and len(l.elts) == 1:
+            return f"(repeat {wnat(l.elts[0], n_name)} {wnat(r, n_name)})"
+    if isinstance(e, ast.BinOp) and isinstance(e.op, ast.Add):
+        return f"({wlist(e.left, n_name)} ++ {wlist(e.right, n_name)})"
+    if isinstance(e, ast.List) and len(e.elts) < 50:
+        return "[" + "; ".join(wnat(x, n_name) for x in e.elts) + "]"
+    _bad(e, "list of weights not understood")
+
+
+def wblock(stmts, n_name):
+    """statements that only touch self.weights -> option wspec (None: the statement raises)"""
+    if not stmts:
+        return "Some w"
+    s, rest = stmts[0], stmts[1:]
+    if isinstance(s, ast.Pass) or (isinstance(s, ast.Expr) and isinstance(s.value, ast.Constant)):
+        return wblock(rest, n_name)
+    if isinstance(s, ast.Return) and (s.value is None or (isinstance(s.value, ast.Constant) and s.value.value is None)):
+        return "Some w"
+    if isinstance(s, ast.Assign) and len(s.targets) == 1:
+        t = s.targets[0]
+        if _is_w(t):
+            return f"(let w := WList {wlist(s.value, n_name)} in\n   {wblock(rest, n_name)})"
+        if isinstance(t, ast.Subscript) and _is_w(t.value):
+            return f"(match w_setitem w {wnat(t.slice, n_name)} {wnat(s.value, n_name)} with Some w =>\n   {wblock(rest, n_name)} | None => None end)"
+    if isinstance(s, ast.If):
+        def ends(b):   # every path through b returns
+            return bool(b) and (isinstance(b[-1], ast.Return) or (isinstance(b[-1], ast.If) and ends(b[-1].body) and ends(b[-1].orelse)))
+        if not rest or (ends(s.body) and ends(s.orelse)):
+            return f"(if {wtest(s.test)} then {wblock(s.body, n_name)}\n   else {wblock(s.orelse, n_name)})"
+        if ends(s.body):
+            return f"(if {wtest(s.test)} then {wblock(s.body, n_name)}\n   else {wblock(s.orelse + rest, n_name)})"
+        return (f"(match (if {wtest(s.test)} then {wblock(s.body, n_name)}\n   else {wblock(s.orelse, n_name)}) with Some w =>\n   "
+                f"{wblock(rest, n_name)} | None => None end)")
+    _bad(s, "statement not understood")
+
+
+def transform_weights(gmod):
+    cls = "FitnessEvalLimitReached"
+    tw = find_def(gmod, "_transform_weights", cls)
+    argn = [a.arg for a in tw.args.args]
+    if len(argn) != 2 or argn[0] != "self" or tw.args.vararg or tw.args.kwarg or tw.args.kwonlyargs or tw.args.defaults:
+        raise Unsupported(f"{GSC}:{tw.lineno}: _transform_weights signature changed: {argn}")
+    body = wblock(tw.body, argn[1])
+    call = find_def(gmod, "__call__", cls)
+    guards = [i for i, s in enumerate(call.body) if isinstance(s, ast.If) and any(isinstance(n, ast.Call) and dotted(n.func) == "self._transform_weights" for n in ast.walk(s))]
+    calls = [n for n in ast.walk(call) if isinstance(n, ast.Call) and dotted(n.func) == "self._transform_weights"]
+    loops = [i for i, s in enumerate(call.body) if any(isinstance(n, (ast.For, ast.While, ast.ListComp, ast.GeneratorExp)) and
+                                                       any(_is_w(m) for m in ast.walk(n)) for n in ast.walk(s))]
+    if len(guards) != 1 or len(calls) != 1 or not loops or guards[0] > min(loops):
+        raise Unsupported(f"{GSC}:{call.lineno}: FitnessEvalLimitReached.__call__: the weights are not normalised exactly once before they are used")
+    g = call.body[guards[0]]
+    if g.orelse or len(g.body) != 1 or not (isinstance(g.body[0], ast.Expr) and g.body[0].value is calls[0]) or len(calls[0].args) != 1 or calls[0].keywords:
+        _bad(g, "guard around _transform_weights")
+    # the argument, with the straight-line locals of __call__ substituted
+    defs = {}
+    for s in call.body[:guards[0]]:
+        if isinstance(s, ast.Assign) and len(s.targets) == 1 and isinstance(s.targets[0], ast.Name):
+            defs[s.targets[0].id] = s.value
+        elif not (isinstance(s, ast.Expr) and isinstance(s.value, ast.Constant)):
+            _bad(s, "statement before the weights guard")
+
+    class Sub(ast.NodeTransformer):
+        def visit_Name(self, n):
+            return Sub().visit(ast.parse(ast.unparse(defs[n.id]), mode="eval").body) if n.id in defs else n
+    arg = Sub().visit(ast.parse(ast.unparse(calls[0].args[0]), mode="eval").body)
+    treen = [a.arg for a in call.args.args][1]
+    tr = STr(GSC, cls, "gen_weights_nlevels", "tree", {})
+    pre, v = tr.expr(arg, {treen: V("tree", "treeobj", deps=set())})
+    if pre or v.ty != "nat":
+        _bad(calls[0], "number of levels passed to _transform_weights")
+    return (f"Definition gen_weights_guard (w : wspec) : bool :=\n  {wtest(g.test)}.\n\n"
+            f"Definition gen_transform_weights (v_n : nat) (w : wspec) : option wspec :=\n  {body}.\n\n"
+            f"Definition gen_weights_nlevels (c : cfg) : nat :=\n  {v.code}.\n\n"
+            "(* self.weights when FitnessEvalLimitReached.__call__ takes the weighted sum *)\n"
+            "Definition gen_effective_weights (c : cfg) (w : wspec) : option wspec :=\n"
+            "  if gen_weights_guard w then gen_transform_weights (gen_weights_nlevels c) w else Some w.\n")
